@@ -1,4 +1,7 @@
 import Driver.RegOps
+import Driver.PrimaryOps
+import Driver.BnOps
+import Driver.ScalarOps
 open Lean
 
 namespace Drv
@@ -6,7 +9,7 @@ namespace Drv
 /-- every area contributes a partial dispatcher `String → Json → Option (Except String Json)`;
     add new areas to this list (one line each) -/
 def dispatchers : List (String → Json → Option (Except String Json)) :=
-  [ dispatchReg ]
+  [ dispatchReg, dispatchPrimary noNrHook, dispatchScalar, dispatchBn ]
 
 def dispatch (op : String) (inp : Json) : Except String Json :=
   match dispatchers.findSome? (fun d => d op inp) with
